@@ -49,14 +49,14 @@ var registry = []*HarnessSpec{
 	{Prop: "C20", Name: "zzH20d", Pkg: pkgCorerad, Tier: "quick", Explore: true, Sched: 64, Race: true, Bounds: "signalTask.Run for SIGINT / SIGTERM / SIGHUP with one concurrent reader of the decision; lock discipline on terminator.term decided on every path and schedule; native validation under the Go race detector"},
 	{Prop: "C20", Name: "zzH20c", Pkg: pkgCorerad, Tier: "quick", Explore: true, NoNative: true, Sched: 4000, SchedThorough: 60000, Params: map[string]int{"tasks": 2, "tasks@thorough": 3}, Bounds: "2 (3) stub tasks each with one of 5 behaviours; SIGINT / SIGTERM / SIGHUP / no signal delivered once everything is blocked; schedules explored up to the budget"},
 	{Prop: "C07", Name: "zzH09b", Pkg: pkgCorerad, Tier: "quick", NoNative: true, Bounds: "Listen + handle over a scripted socket: a valid RS from any IPv6 source or ::, with or without the zone the socket layer attaches"},
-	{Prop: "C07", Name: "zzH06", Pkg: pkgCorerad, Tier: "quick", MonoTime: true, NoNative: true, Params: map[string]int{"events": 2, "events@thorough": 3}, Bounds: "scheduler: 2 (3) requests (all-nodes or arbitrary unicast sources, possibly repeated) at arbitrary instants: one task per solicitation, delay in [0,500ms), each closure sends to its own source"},
+	{Prop: "C07", Name: "zzH06", Pkg: pkgCorerad, Tier: "quick", MonoTime: true, NoNative: true, NotOf: []string{"multicast-ras-3s-apart", "multicast-ra-3s-after-initial"}, Params: map[string]int{"events": 2, "events@thorough": 3}, Bounds: "scheduler: 2 (3) requests (all-nodes or arbitrary unicast sources, possibly repeated) at arbitrary instants: one task per solicitation, delay in [0,500ms), each closure sends to its own source"},
 	{Prop: "C09", Name: "zzH09b", Pkg: pkgCorerad, Tier: "quick", NoNative: true, Bounds: "Listen with its real goroutines over a scripted socket: one invalid message (any hop limit != 255) then one valid RS from any IPv6 source or ::, with or without zone; then cancellation"},
 	{Prop: "C18", Name: "zzH09b", Pkg: pkgCorerad, Tier: "quick", NoNative: true, Bounds: "the receive path shared by monitor and advertiser: the sender address handed to the callback has its zone stripped for any IPv6 source"},
 	{Prop: "C10", Name: "zzH10adv", Pkg: pkgCorerad, Tier: "quick", MonoTime: true, NoNative: true, Bounds: "Advertiser.Run with all its real goroutines; one fault: opaque receive error / link-state change / failing scheduled transmission; then cancellation"},
 	{Prop: "C10", Name: "zzH10e", Pkg: pkgCorerad, Tier: "quick", NoNative: true, Bounds: "Listen with its real goroutines: non-timeout net.Error, opaque read error, or failing callback"},
-	{Prop: "C06", Name: "zzH06burst", Pkg: pkgCorerad, Tier: "quick", MonoTime: true, NoNative: true, Bounds: "two requests queued together before the scheduler runs (a unicast source and all-nodes, either order) at one instant; each task then runs at its due time"},
-	{Prop: "C07", Name: "zzH06burst", Pkg: pkgCorerad, Tier: "quick", MonoTime: true, NoNative: true, Bounds: "two requests queued together (a unicast source and all-nodes, either order): one unicast RA to the source within 500 ms, one multicast RA"},
-	{Prop: "C06", Name: "zzH06", Pkg: pkgCorerad, Tier: "quick", MonoTime: true, NoNative: true, Params: map[string]int{"events": 2, "events@thorough": 3}, Bounds: "2 (3) requests, each all-nodes or an arbitrary unicast source, at arbitrary non-decreasing monotonic instants (ns); ideal timers (a task runs at registration + delay)"},
+	{Prop: "C06", Name: "zzH06burst", Pkg: pkgCorerad, Tier: "quick", MonoTime: true, NoNative: true, NotOf: []string{"one-unicast-ra-to-the-soliciting-source", "unicast-delay-in-0-500ms"}, Bounds: "two requests queued together before the scheduler runs (a unicast source and all-nodes, either order) at one instant; each task then runs at its due time"},
+	{Prop: "C07", Name: "zzH06burst", Pkg: pkgCorerad, Tier: "quick", MonoTime: true, NoNative: true, NotOf: []string{"multicast-ra-3s-after-initial"}, Bounds: "two requests queued together (a unicast source and all-nodes, either order): one unicast RA to the source within 500 ms, one multicast RA"},
+	{Prop: "C06", Name: "zzH06", Pkg: pkgCorerad, Tier: "quick", MonoTime: true, NoNative: true, NotOf: []string{"each-solicitation-answered-exactly-once-to-its-source", "unicast-delay-in-0-500ms"}, Params: map[string]int{"events": 2, "events@thorough": 3}, Bounds: "2 (3) requests, each all-nodes or an arbitrary unicast source, at arbitrary non-decreasing monotonic instants (ns); ideal timers (a task runs at registration + delay)"},
 	{Prop: "C10", Name: "zzH10s", Pkg: pkgCorerad, Tier: "quick", MonoTime: true, NoNative: true, Params: map[string]int{"pending": 2}, Bounds: "2 pending RAs (multicast or unicast) whose transmissions all fail"},
 	{Prop: "C03", Name: "zzH03header", Pkg: pkgConfig, Tier: "quick", Bounds: "all header keys symbolic (every shape of default_lifetime; any value of the timers, hop limit, flags, preference) as accepted by the real parser"},
 	{Prop: "C03", Name: "zzH03prefix", Pkg: pkgConfig, Tier: "quick", Bounds: "one static prefix stanza: any accepted IPv6 prefix, both lifetimes of every accepted shape"},
